@@ -174,7 +174,8 @@ class Walker:
             return UNKNOWN
         env2 = dict(clo.env)
         for p, a in zip(params, e.args):
-            env2[p] = self.state(a, env)
+            sv = self.truth(a, env)  # a scalar / boolean argument (e.g. the option handed on under another name)
+            env2[p] = sv if sv is not UNKNOWN else self.state(a, env)
         try:
             self.block(clo.node.body, env2)
         except Ret as r:
@@ -247,15 +248,19 @@ class Walker:
             self.block(s.body, env)
 
 
-def key_tables(fn: ast.FunctionDef, option: str, value: bool):
-    """-> list of (dict expression text, Sym | UNKNOWN, node) for every subscript store of fn"""
+def key_tables(fn: ast.FunctionDef, option: str, value: bool, funcs: dict | None = None):
+    """-> list of (dict expression text, Sym | UNKNOWN, node) for every subscript store of fn.
+    funcs: module-level functions ({name: FunctionDef}) that the code may call on a state"""
     state_vars = set()
     for n in ast.walk(fn):
         if isinstance(n, ast.For) and isinstance(n.target, ast.Tuple) and n.target.elts and isinstance(n.target.elts[0], ast.Name) and src(n.iter).endswith(".items()"):
             state_vars.add(n.target.elts[0].id)
     w = Walker(option, value, state_vars)
+    env0 = {name: Closure(node, {}) for name, node in (funcs or {}).items()}
+    for c in env0.values():
+        c.env = env0
     try:
-        w.block(fn.body, {})
+        w.block(fn.body, env0)
     except Ret:
         pass
     return w.keys
